@@ -536,6 +536,18 @@ func main() {
 		}
 	}
 	st := stressDocs()
+	// a complete valid document followed by something else: what a decoder that stops after the first
+	// value and one that insists on a single value disagree about
+	if len(bases) > 0 {
+		good := gen.RenderJSON(bases[0].Tree)
+		goodY := gen.RenderYAML(bases[0].Tree)
+		for name, tail := range map[string]string{"second-object": "{}", "same-document-again": string(good), "closing-bracket": "]", "closing-brace": "}", "word": " trailing", "null": "\nnull", "number": " 5", "comma": ",", "newline-then-object": "\n{\"a\":1}", "nul-byte": "\x00", "bom": "\ufeff"} {
+			st = append(st, Case{Kind: "stress", Stress: "valid-json-then-" + name, Bytes: append(append([]byte{}, good...), tail...)})
+		}
+		for name, tail := range map[string]string{"second-yaml-document": "\n---\n{}\n", "document-end-marker-then-text": "\n...\ntrailing\n", "second-document-invalid": "\n---\n- [\n", "tab-line": "\n\tx\n"} {
+			st = append(st, Case{Kind: "stress", Stress: "valid-yaml-then-" + name, Bytes: append(append([]byte{}, goodY...), tail...)})
+		}
+	}
 	for n0 := 0; n0 <= 5; n0++ {
 		for n1 := 0; n1 <= 4; n1++ {
 			for _, bad := range []bool{false, true} {
